@@ -696,6 +696,10 @@ def shared(ctx):
     from rules.engine import core
     from rules.props import c11
     core.import_rules(ctx, [c11.r3_forward_pc, c11.r4_nesting, c11.r5_length_guards], "X11")
+    # 'a function of ... the environment': what the program can read of the environment is exactly the initial heap, decided by C04.R4 (each slot, its content,
+    # and that it is filled on every path)
+    from rules.props import c04
+    core.import_rules(ctx, [c04.r4_heap_layout], "X04")
 
 
 RULES = [r1_dispatch, r2_alu, r3_failure_discipline, r4_determinism, r5_result, r6_layouts, r7_bounded_exp, r7_exp_algorithm, r8_narrowing, r9_bounds_on_full_width, r10_sigeok_bounds, r11_conversions_and_branches, shared]
